@@ -36,8 +36,8 @@ def check(ctx):
     for m in MODS:
         if quick:
             # quick: bound 1, three core scripts per module (+ the module-specific ones), bound 2 where the lock-free merge / lifo code is
-            only = ['sched_vs_steal', 'two_writers', 'resched'] + {'llp': ['foreign_push', 'push_push'], 'lfq': ['overflow', 'push_push'], 'pbq': ['overflow'], 'lhq': ['foreign_push']}.get(m, [])
-            full = {'llp': ['push_push', 'two_writers', 'foreign_push'], 'll': ['sched_vs_steal'], 'lfq': ['push_push']}.get(m)
+            only = ['sched_vs_steal', 'two_writers', 'resched', 'detach_vs_ring2'] + {'llp': ['foreign_push', 'push_push', 'detach_vs_ring3'], 'lfq': ['overflow', 'push_push'], 'pbq': ['overflow'], 'lhq': ['foreign_push']}.get(m, [])
+            full = {'llp': ['push_push', 'two_writers', 'foreign_push', 'detach_vs_ring2'], 'll': ['sched_vs_steal'], 'lfq': ['push_push']}.get(m)
             a = ['--sched', m, '--streams', '2', '--bound', '2' if full else '1', '--scenario', 'all', '--jobs', '2' if full else '1', '--deadline', '70']
             for o in only: a += ['--only', o]
             for f in (full or []): a += ['--full', f]
